@@ -169,6 +169,66 @@ def make_h(tier):
     return h
 
 
+# ------------------------------------------------------------------ K1: interval logic with symbolic line numbers
+def h_intervals(ctx):
+    """De-overlapping of rolling-hash windows and of violations, with every start line a solver integer."""
+    from src.core.types import Violation
+    from src.linters.dry.cache import CodeBlock
+    from src.linters.dry.deduplicator import ViolationDeduplicator
+    from src.linters.dry.violation_builder import DRYViolationBuilder
+    from src.linters.dry.violation_filter import ViolationFilter
+    from vsym.pathex import If
+    n = ctx.pick("blocks", (1, 2, 3))
+    w = ctx.int("window_lines", 1, 6)
+    files = [ctx.pick(f"file{i}", ("a.py", "b.py")) if i else "a.py" for i in range(n)]
+    starts = [ctx.int(f"start{i}", 1, 40) for i in range(n)]
+    for i in range(n):
+        for j in range(i):
+            if files[i] == files[j]:
+                ctx.assume(starts[i] != starts[j])       # the same window is stored once
+    blocks = [CodeBlock(file_path=Path("/p/" + files[i]), start_line=starts[i], end_line=starts[i] + w - 1, snippet="s", hash_value=7)
+              for i in range(n)]
+    dd = ViolationDeduplicator()
+    kept = dd.deduplicate_blocks(blocks)
+    kept_ids = {id(b) for b in kept}
+    ctx.cover("dropped-some" if len(kept) < n else "kept-all")
+
+    def overlap(x, y):
+        return And(x.file_path == y.file_path, x.start_line <= y.end_line, y.start_line <= x.end_line)
+    for i, a in enumerate(kept):
+        for b in kept[:i]:
+            ctx.require("kept-blocks-are-pairwise-disjoint", Not(overlap(a, b)))
+    for b in blocks:
+        if id(b) not in kept_ids:
+            ctx.require("every-dropped-block-overlaps-a-kept-one", Or(*[overlap(b, k) for k in kept]))
+    # greedy by start line is optimal for equal-length windows: no dropped block is disjoint from ALL kept blocks,
+    # and the earliest block of every file is always kept
+    for f in set(files):
+        mine = [b for b in blocks if b.file_path.name == f]
+        first_kept = [k for k in kept if k.file_path.name == f]
+        ctx.require("some-block-kept-per-file", len(first_kept) >= 1)
+        for b in mine:
+            ctx.require("earliest-block-of-a-file-is-kept", Or(*[And(k.start_line <= b.start_line) for k in first_kept]))
+    # message: count and line span round trip
+    vb = DRYViolationBuilder()
+    v = vb.build_violation(kept[0], kept, "dry.duplicate-code")
+    ctx.require("violation-starts-at-block-start", Eq(v.line, kept[0].start_line))
+    ctx.require("also-found-in-lists-the-other-kept-blocks", v.message.count(".py:") == len(kept) - 1, msg=v.message)
+    wc = int(w)      # the line count travels through the message text: enumerated by forking
+    v2 = vb.build_violation(CodeBlock(Path("/p/a.py"), 5, 5 + wc - 1, "s", 7), kept, "dry.duplicate-code")
+    ctx.require("line-count-round-trips-through-the-message", ViolationFilter()._extract_line_count(v2.message) == wc, msg=v2.message)
+    ctx.require("occurrence-count-is-number-of-kept-blocks", f"{len(kept)} occurrences" in v2.message, msg=v2.message)
+    # violation-level overlap filter on symbolic lines
+    vf = ViolationFilter()
+    la, lb = ctx.int("viol_line_a", 1, 60), ctx.int("viol_line_b", 1, 60)
+    ctx.assume(la <= lb)
+    msg = "Duplicate code (%d lines, 2 occurrences)" % wc
+    va = Violation("dry.duplicate-code", "/p/a.py", la, 1, msg)
+    vbb = Violation("dry.duplicate-code", "/p/a.py", lb, 1, msg)
+    out = vf.filter_overlapping([va, vbb])
+    ctx.require("later-violation-kept-iff-it-does-not-overlap-the-earlier", Eq(len(out) == 2, lb >= la + wc))
+
+
 def h_periodic(ctx):
     """A run made of ONE statement repeated w+1 .. 2w-1 times: its windows overlap inside a file, so each
     file holds exactly one non-overlapping place."""
@@ -238,6 +298,11 @@ def obligations(tier):
                   "style of the first occurrence (plain/indented/commented+blank/extra spaces/trailing comment), offset"
                   % ((4, 5, "2-3 files, 1-3 places") if tier == "quick" else (5, 7, "2-4 files, 1-4 places")),
            timeout=900 if tier == "quick" else 3000, workers=14, must_cover=("reported", "silent")),
+        Ob(name="K1-interval-logic-symbolic-lines", engine="pathex", harness=h_intervals,
+           functions=["ViolationDeduplicator.deduplicate_blocks/_remove_overlaps_from_file/_overlaps_any_kept/_blocks_overlap", "BlockGrouper.group_blocks_by_file",
+                      "DRYViolationBuilder.build_violation/_get_location_refs/_build_message", "ViolationFilter.filter_overlapping/_overlaps/_extract_line_count"],
+           bounds="1-3 windows with start lines symbolic in [1,40] and a common length symbolic in [1,6]; two violation lines symbolic in [1,60]; file assignment forked",
+           timeout=300, workers=8, must_cover=("dropped-some", "kept-all")),
         Ob(name="K3b-periodic-runs-overlapping-windows", engine="pathex", harness=h_periodic,
            functions=["ViolationGenerator._collect_violations/_meets_min_occurrences", "ViolationDeduplicator.deduplicate_blocks/_remove_overlaps_from_file/_blocks_overlap",
                       "cache_query duplicate-hash selection (sqlite)", "DRYViolationBuilder.*"],
